@@ -5,7 +5,7 @@ PROP = {
     "lean_modules": ["SwimVerif.Model.TimeoutCoord", "SwimVerif.Proofs.TimeoutCoord",
                      "SwimVerif.Generated.TimeoutConsts", "SwimVerif.Model.InactivityRt",
                      "SwimVerif.Proofs.InactivityRt", "SwimVerif.Model.CoordThreads", "SwimVerif.Model.InactivityDl",
-                     "SwimVerif.Proofs.InactivityDl"],
+                     "SwimVerif.Proofs.InactivityDl", "SwimVerif.Model.CoordPoll", "SwimVerif.Proofs.CoordPoll"],
     "engines": [
         {"name": "coord-random", "crate": "core", "bin": "sv-c17", "machine": "c17",
          "features": [], "cases": {"quick": 6000, "thorough": 600000}, "min_shard": 1000},
@@ -48,7 +48,10 @@ PROP = {
     "level_note": "Atomics are modelled as a total modification order on one location (guaranteed by Rust even for "
                   "Relaxed); AtomicWaker and the Acquire/Release pairing with the receiver are trusted; the "
                   "implementation is exercised single-threaded by the differential engines (the interleavings are "
-                  "covered by the theorem) and multi-threaded by coord-threads (monitor only). 'Stops only by the "
+                  "covered by the theorem) and multi-threaded by coord-threads (monitor only; it includes waiter rounds in "
+                  "which the final vote races with load/register/load of Receiver::poll: the order of those steps is "
+                  "below the atomic poll of the main model and is proved separately over Model/CoordPoll, "
+                  "C17_poll_no_lost_wakeup, with the one-load variant refuted). 'Stops only by the "
                   "unanimous vote' is false of the agent runtime (C17-N1: no remotes => the write task stops it alone); "
                   "the downlink runtime model has safety theorems only (its timers are not in the theorems).",
     "trusted_base": COMMON_TRUST + [
